@@ -122,7 +122,10 @@ W == 4 * N + 3
 RelateCase(i, j) ==
     LET im == IMofMaps(CatPos[i], CatPos[j], F) IN
     [op |-> "relate", id |-> <<i, j>>, a |-> Cat[i], b |-> Cat[j], im |-> im,
-     pred |-> [i |-> ImIntersects(im), c |-> ImContains(im), w |-> ImWithin(im)]]
+     pred |-> [i |-> ImIntersects(im), c |-> ImContains(im), w |-> ImWithin(im)],
+     \* operands whose segments never cross properly: all arrangement nodes are input vertices, so the
+     \* answer needs no computed intersection point and must survive even very ill-conditioned exact maps
+     noproper |-> NoProperCrossing(Cat[i], Cat[j])]
 CoordPosCase(i) ==
     [op |-> "coordpos", id |-> <<i>>, g |-> Cat[i], lo |-> -1, hi |-> 4 * N + 1,
      pos |-> [k \in 1 .. W * W |-> CatPos[i][<<((k - 1) \div W) - 1, ((k - 1) % W) - 1>>]]]
